@@ -59,5 +59,27 @@ CLAIMED = {
    text="Proof level for the coordinator-side fencing units: _heartbeat sends only while not stopping, no rejoin is needed and no heartbeat is in flight; join_and_sync starts an exchange only when none is in flight; rejoin_after_error stops the consumers of the old generation (on_group_leave) before it schedules a rejoin on eviction errors and keeps one pending rejoin. ConsumerGroup's consumer creation/teardown and 'no request after stop' across the @inlineCallbacks sequence are covered by the bounded scenario stand-in.",
    note="on_group_leave/on_join_prepare of ConsumerGroup are represented by contracts. Trusted: Twisted contracts.",
    ref='DESIGN.md section 8 C16, section 12'),
+ 'C07': dict(category='other',
+   text="BOUNDED stand-in only (labelled, nothing counted as proved): KafkaClient._send_broker_aware_request is driven on the real client with generated cluster layouts, payload orders, acks settings and failing brokers; oracles: one request per broker carrying that broker's payloads, responses in payload order, FailedPayloadsError accounting for every payload exactly once. The routing code is @inlineCallbacks with polymorphic encoder/decoder arguments and was not brought within the symbolic executor's reach.",
+   note="No deductive obligation is discharged for C07; evidence level is 'other' with the bound stated. Broker-agnostic fallback order (connected first, then bootstrap hosts) is not covered.",
+   technique='bounded stand-in for a contract-based check: the property-derived contract evaluated natively on generated scenarios (no proof)',
+   ref='DESIGN.md section 12'),
+ 'C08': dict(category='other',
+   text="updateMetadata (broker address update takes effect for later connections) is proved; the cache view after _merge_topic_metadata is checked by a BOUNDED stand-in only (generated sequences of partial metadata responses; oracle: view of covered topics equals the response, vanished partitions leave no leader behind, other topics untouched). Self-healing within the retry budget (liveness) is not decided.",
+   note="evidence level 'other': one unit proved (brokerclient.updateMetadata), the merge itself bounded.",
+   technique='contract on updateMetadata (proved) + bounded stand-in for the cache merge',
+   ref='DESIGN.md section 12'),
+ 'C15': dict(category='other',
+   text="Decode side under contract (decode_join_group_protocol_metadata proved against the grammar spec); the assignment function itself is checked by a BOUNDED stand-in (all permutations (<=6) of generated member sets / subscriptions / partition maps; oracles: exactly one subscribed owner per partition, balance for identical subscriptions, independence of listing order, decode(encode) round trip).",
+   note="_round_robin_assignment uses sets, itertools.cycle and nested defaultdicts, outside the executor's subset.",
+   technique='bounded stand-in + proved decoder contract', ref='DESIGN.md section 12'),
+ 'C18': dict(category='other',
+   text="BOUNDED stand-in only: pure_murmur2 compared with an independent 32-bit transcription of org.apache.kafka.common.utils.Utils.murmur2 on generated keys (every length mod 4, bytes >= 0x80), HashedPartitioner result against toPositive(murmur2) % n, round-robin fairness over k*n selections with in-place and replaced partition lists.",
+   note="The bit-vector proof of pure_murmur2 planned in DESIGN.md section 8 was not built in this round.",
+   technique='bounded stand-in (no proof)', ref='DESIGN.md section 12'),
+ 'C20': dict(category='other',
+   text="Brokerclient.close() is proved (table emptied, every uncancelled request failed once, close Deferred fired only through connection loss / failed attempt: invariants of C06/C10); the bootstrap loop's _closing guards are in place (fix 05dc20c). The aggregate close Deferred of KafkaClient (_close_brokerclients nesting) is checked by a BOUNDED stand-in over generated refresh/close/connection-gone orderings.",
+   note="'every request in progress fails at once' for a bootstrap connection attempt already in flight is not satisfied (it ends when the attempt resolves): KNOWN-FINDING.",
+   technique='contracts on _KafkaBrokerClient.close (proved) + bounded stand-in for the client-level aggregate', ref='DESIGN.md section 12'),
 }
 NOT_APPLICABLE = {}
